@@ -51,4 +51,18 @@ PROPS = {
             "payload limit enters the model as a parameter read from the compiled constant MaxPayloadSize",
         ],
     },
+    "C20": {
+        "level": "proof",
+        "extract": ["Conversion"],
+        "rule": "random Go types (depth<=4: all scalar kinds, slices, maps with scalar/string keys, structs built with "
+                "reflect.StructOf) and boundary-biased values; 60% compatible targets (wider ints, f32->f64, permuted and "
+                "re-cased struct fields, nested) converted there and back, 20% kind clashes behind non-empty containers, "
+                "20% arbitrary targets (narrowing, sign change, missing/extra fields) for the model correspondence; "
+                "distinct = distinct op line, all generated cases are non-trivial (at least one conversion executed)",
+        "assumptions": [
+            "FloatExact: float32->float64->float32 is the identity on non-NaN values (hypothesis of the theorems; the driver uses the machine's IEEE conversions)",
+            "pointer-typed elements and unexported fields are outside the property's domain and not generated",
+            "Go's int is 64 bits on this platform",
+        ],
+    },
 }
